@@ -644,6 +644,14 @@ def rule_retain_loop(ctx, rule="T9-retain"):
     ms, ls = moves_of(b)
     enc = [m for m in ms if m.kind == "encode_utf8" and m.cx.body is b]
     preds = [(bb, t) for bb, t in b.calls() if callee_name(t) in CLOSURE_CALLS and not t.get("resolved")]
+    # String::retain asks the predicate exactly once per char, in order: one call site in the loop,
+    # none hidden in a closure handed to an iterator adaptor (a pre-scan asks about some char twice)
+    hidden = []
+    for cp, cb in F.bodies.items():
+        if cp.startswith(b.path + "::{closure") and cb.j["kind"] == "closure":
+            hidden += ["%s (line %s)" % (cp.rsplit("::", 1)[-1], t.get("line")) for _, t in cb.calls() if callee_name(t) in CLOSURE_CALLS and not t.get("resolved")]
+    ctx.ob(rule, b.path, "predicate-asked-at-one-site", len(preds) + len(hidden) <= 1, how="one predicate call site",
+           detail="the predicate is invoked at %d sites (%s): some char is asked about more than once, or out of order - visible with a stateful predicate" % (len(preds) + len(hidden), ", ".join(["loop (line %s)" % t.get("line") for _, t in preds] + hidden)))
     if len(enc) != 1 or len(preds) != 1:
         ctx.ob(rule, b.path, "loop-shape", True, how="not the read / ask / write-back loop (%d char writes, %d predicate calls): clause not decided" % (len(enc), len(preds)))
         return
